@@ -307,3 +307,29 @@ CLI = "code_data/_cli.py"
 fire("C16", CLI, 'parser.add_argument("file", type=str, nargs="?", help="path to Python program")', 'parser.add_argument("file", type=pathlib.Path, nargs="?", help="path to Python program")', "the original defect: pathlib normalises the typed path (R16.6)")
 fire("C16", CLI, "        if show_source:\n            with tokenize.open(file) as source_file:\n                source = source_file.read()\n", "        with tokenize.open(file) as source_file:\n            source = source_file.read()\n", "the original defect: text decoded without --source (R16.5)")
 fire("C16", CLI, "        if show_source:\n            source = spec.loader.get_source(mod)  # type: ignore\n", "        source = spec.loader.get_source(mod)  # type: ignore\n", "same for -m (R16.5)")
+# ---- folds added in the ninth working block (R10.F, R03.Y, R03.T, R03.E, R02.F, R06.N, R16.F, R11.5 as a fold, R14.6)
+fire("C10", L, "            and item.bytecode_offset != 0\n            # A range without a line", "            # A range without a line", "a (254/255, d) entry followed by a zero-width entry merged (R10.F)")
+fire("C10", L, "                if current_item.line_offset == 0:\n                    offset_to_additional_line_offsets[bytecode_offset].append(0)\n", "", "zero line deltas of 3.7/3.8 tables forgotten (R10.F)")
+fire("C10", L, "        if line_offset != 0 or bytecode_offset != 0 or not emitted_extra:", "        if line_offset != 0 or bytecode_offset != 0:", "the closing (0, 0) entry after an exact multiple dropped (R10.F)")
+fire("C10", L, "            bytecode_offset=bytecode_offset\n                    + 2\n                    - cast(int, section_bytecode_offset),", "            bytecode_offset=bytecode_offset\n                    - cast(int, section_bytecode_offset),", "last 3.10 range two bytes short (R10.F)")
+silent(["C10", "C01", "C05"], L, "    MAX_BYTECODE = 254 if is_linetable else 255\n", "    MAX_BYTECODE = 255 - int(is_linetable)\n", "same limit, written as arithmetic")
+silent(["C10", "C01"], L, "    for i in range(len(items) - 1, 0, -1):\n", "    for i in reversed(range(1, len(items))):\n", "same walk from the end")
+fire("C10", L, "                tuple(self.offset_to_additional_line_offsets.pop(next_offset, list())),", "                tuple(self.offset_to_additional_line_offsets.get(next_offset + 2, list())),", "trailing entries looked up at the wrong offset (R10.E / R11.5)")
+fire("C11", L, "        if self.offset_to_line:\n            if set(self.offset_to_line.keys()) != {next_offset}:", "        if self.offset_to_line:\n            if next_offset not in self.offset_to_line:", "other leftover lines dropped silently (R11.5)")
+silent(["C11", "C10", "C01"], L, "        if self.offset_to_additional_line_offsets and set(\n            self.offset_to_additional_line_offsets.keys()\n        ) != {next_offset}:",
+       "        if set(self.offset_to_additional_line_offsets) - {next_offset}:", "same leftover test as a set difference")
+fire("C03", B, "                bytes_.append((arg_value >> (8 * i)) & 0xFF)", "                bytes_.append((arg_value >> (8 * (n_args - 1 - i))) & 0xFF)", "operand bytes little-endian (R03.Y / R03.E)")
+fire("C03", B, "            block_index_to_instruction_offset[block_index] = current_instruction_offset\n", "            block_index_to_instruction_offset[block_index] = current_instruction_offset + (1 if block_index else 0)\n", "block starts one unit late (R03.E)")
+fire("C03", B, "                args[block_index, instruction_index] += len(cellvars)", "                args[block_index, instruction_index] += len(freevars)", "free variables shifted by the wrong table (R03.E)")
+fire("C03", B, "        if hash_ in self._arg_to_i:\n            return self._arg_to_i[hash_]\n", "", "an entry met twice gets two positions (R03.T)")
+silent(["C03", "C01", "C05"], B, "        index = len(self)\n        self[index] = arg\n        return index", "        index = len(self._i_to_arg)\n        self[index] = arg\n        return index", "same count read from the dict")
+fire("C02", B, "        return Freevar(freevars[arg - len(found_cellvars)])", "        return Freevar(freevars[arg - len(found_cellvars) - 1])", "free variable index off by one, hidden by negative indexing for the first (R02.F)")
+fire("C13", B, "                    target=targets.index(instruction.arg.target),", "                    target=min(targets.index(instruction.arg.target), len(blocks)),", "forward jumps clamped to the blocks built so far (R13.F / R02.F)")
+fire("C06", N, "                _additional_line=None,\n", "", "trailing line survives normalization (R06.N)")
+fire("C06", N, "        return cast(T, tuple(map(normalize, x)))", "        return cast(T, tuple(map(normalize, x[:8])) + x[8:])", "only the first eight elements are normalized (R06.N)")
+silent(["C06", "C05"], N, "        return cast(T, tuple(map(normalize, x)))", "        return cast(T, tuple(normalize(e) for e in x))", "same map as a generator")
+fire("C16", CLI, "    if not no_normalize:\n        code_data = normalize(code_data)\n    console.print(code_data)", "    console.print(code_data)\n    if not no_normalize:\n        code_data = normalize(code_data)", "prints before normalizing (R16.F)")
+fire("C16", CLI, "        json_data = code_data.to_json_data()", "        json_data = CodeData.from_code(code).to_json_data()", "the JSON document is of the un-normalized data (R16.F)")
+fire("C16", CLI, '        code = compile(source, "<string>", "exec")  # type: ignore', '        code = compile(source, "<string>", "single")  # type: ignore', "-c compiled in another mode (R16.F)")
+fire("C14", "code_data/_constants.py", "    if isinstance(value, CodeType):\n        return CodeData.from_code(value)\n    return value", "    if isinstance(value, CodeType):\n        return CodeData.from_code(value)\n    if isinstance(value, tuple):\n        return tuple(map(to_constant, value))\n    return value", "code objects decoded inside tuple constants, where __iter__ does not look (R14.6)")
+fire("C08", I, "class Jump(DataclassHideDefault):", "class Jump(DataclassHideDefault):\n    def __new__(cls, *args, **kwargs):\n        return super().__new__(cls)\n", "hand-written __new__ on a data class (R08.1)")
